@@ -109,7 +109,10 @@ def main():
             if props == ["all"]:
                 props = ALL
             res = run_checks(name, props)
-            if os.environ.get("VERIF_SEEDED_FRESH"):
+            if os.environ.get("VERIF_SEEDED_FRESH") == "own":
+                for p_ in props:
+                    meta.get("checks", {}).pop(p_, None)  # re-evaluated on the current tree
+            elif os.environ.get("VERIF_SEEDED_FRESH"):
                 meta["checks"] = {}  # a full re-evaluation on the current tree: nothing is carried over
             meta.setdefault("checks", {})
             for p_, r_ in res.items():
